@@ -8,7 +8,7 @@ import random
 import time
 import vlib
 from vlib import Ctx
-from props.c12_programs import programs
+from props.c12_programs import programs, tagged_programs
 
 PROP = 'C12'
 LEVELS = (0, 2)
@@ -202,7 +202,7 @@ def judge_run(F, h, run, kind):
             else:
                 diff = [k for k in range(len(fi)) if fi[k] != ff[k]]
                 fails.append((f'C12/final-state-differs(fields={diff})', {'impl': fi, 'free': ff}))
-    if kind == 'stepall' and not resumed and run['start'][0] == 0 and extras:
+    if kind in ('stepall', 'tag-stepall') and not resumed and run['start'][0] == 0 and extras:
         visits = [[run['start'][6], run['start'][1], extras[0]['before']['stmt']]]
         finished = False
         for i in range(len(run['snaps'])):
@@ -219,6 +219,72 @@ def judge_run(F, h, run, kind):
                      min(len(visits), len(exp)))
             fails.append(('C12/step-visits-differ', {'first_difference': k, 'visits': visits[:k + 2],
                                                        'expected': exp[:k + 2], 'finished': finished}))
+    return fails
+
+
+def tags_of(F):
+    """the line tags printed by the free run of a tagged program, in order (None = not a tag)"""
+    out = []
+    for e in F['final'][-1]:
+        s = ''
+        if e and e[0] == 1 and len(e) > 1 and isinstance(e[1], list):
+            s = ''.join(chr(c) for c in e[1]).strip()
+        out.append(int(s[1:]) if s[:1] == 'L' and s[1:].isdigit() else None)
+    return out
+
+
+def judge_tagged(info, F, h, run, kind):
+    """tagged programs: every `PRINT "L<n>"` sits alone on line n, so what the
+    program printed says which simple statements ran, in which order - an
+    expectation that does not come from the debug section.  (a) the debugger
+    starts before the first statement; (b) repeated step stops at every
+    executed tagged statement, in order, each time before it prints; (c) break
+    on an executable line is not relocated and continue stops there."""
+    fails = []
+    st = run['start']
+    if st[0] != 0:
+        return fails
+    tags = tags_of(F)
+    tagged = set(info['tagged'])
+    if info['first_exec'] and (st[4] != 1 or st[5] != 0):
+        fails.append((f'C12/debugger-does-not-start-at-first-statement(start_line={st[4]},'
+                      f'events_before_first_stop={st[5]})', {'start': st}))
+    if kind == 'tag-stepall':
+        visits = [(st[4], st[5])]
+        finished = False
+        for i, a in enumerate(run['snaps']):
+            if i >= len(h) or a[0] != 0 or a[7] == 1:
+                break
+            if a[2] == 1:
+                finished = True
+                break
+            visits.append((a[4], a[5]))
+        tv = [(l, e) for (l, e) in visits if l in tagged]
+        got = [l for l, _e in tv]
+        exp = tags if finished else tags[:len(got)]
+        early = [(l, e) for (l, e) in tv if e >= len(tags) or tags[e] != l]
+        if got != exp or early:
+            missing = next((exp[j] for j in range(len(exp)) if j >= len(got) or got[j] != exp[j]), None)
+            fails.append((f'C12/step-misses-executed-statement(line={missing})',
+                          {'stops_at_tagged_lines': got, 'printed_tags': tags, 'finished': finished,
+                           'stops_not_before_their_print': early}))
+    if kind == 'tag-break' and run['snaps']:
+        L = h[0][1]
+        a = run['snaps'][0]
+        sets = [m for m in a[11] if isinstance(m, list) and m[0] == 4]
+        if not (len(a[11]) == 1 and sets and sets[0][2] == L):
+            fails.append((f'C12/break-relocated-from-executable-line(line={L})', {'messages': a[11]}))
+        elif len(run['snaps']) >= 2 and L in tagged:
+            c = run['snaps'][1]
+            e0 = a[5]
+            cand = [j for j in range(len(tags)) if tags[j] == L and (j > e0 if a[4] == L else j >= e0)]
+            if c[0] == 0 and c[7] == 0:
+                if cand and not (2 in c[11] and c[4] == L and c[5] == cand[0]):
+                    fails.append((f'C12/break-on-line-stops-elsewhere(line={L})',
+                                  {'after_continue': c, 'expected_events_before_stop': cand[0]}))
+                if not cand and c[2] != 1:
+                    fails.append((f'C12/break-on-line-stops-elsewhere(line={L})',
+                                  {'after_continue': c, 'expected': 'runs to the end'}))
     return fails
 
 
@@ -261,7 +327,8 @@ def main(tier, seed):
     ph['coq_build'] = round(time.time() - t0, 1)
 
     progs = programs(tier)
-    pl = [(p, lvl) for p in progs for lvl in LEVELS]
+    tprogs = tagged_programs()
+    pl = [(p, lvl) for p in progs + tprogs for lvl in LEVELS]
     fcases = [{'src': p[1], 'level': lvl, 'script': p[2]} for (p, lvl) in pl]
     t0 = time.time()
     frees = vlib.run_impl('dbgfn.free', fcases, par=4)
@@ -276,6 +343,12 @@ def main(tier, seed):
     n4, n3 = 250, 150
     nlong = 4 if tier == 'quick' else 12
     for (p, lvl), F in zip(pl, frees):
+        if len(p) > 3:
+            # tagged program: all-step history and break L; continue for every tagged line and line 1
+            work.append((p, lvl, F, 'tag-stepall', [1] * (len(F['trace']) + F['nevents'] + 4)))
+            for L in sorted(set(p[3]['tagged']) | ({1} if p[3]['first_exec'] else set())):
+                work.append((p, lvl, F, 'tag-break', [[6, L], 5]))
+            continue
         l1, l2, l3 = choose_lines(F)
         a7 = [1, 2, 3, 4, 5, [6, l1], [7, l1]]
         a9 = a7 + [[6, l2], [7, l2]]
@@ -307,6 +380,11 @@ def main(tier, seed):
         f'the machine halts; snapshots (status pc halted reason line #events #ticks resumed last_breakpoint depth '
         f'breakpoints messages) after every command and the final machine state compared with the model; '
         f'non-trivial = distinct (program, level, history)')
+    ctx.rule.append(
+        f'{len(tprogs)} tagged programs x -O0/-O2 whose first character starts an executable statement (PRINT, '
+        f'assignment, FOR, IF, DO, WHILE, SELECT, CALL, GOSUB) and whose PRINTs print their own line number: the '
+        f'all-step history and break L; continue for every tagged line and line 1, judged against the printed '
+        f'tags (an expectation independent of the debug section)')
 
     # group by program/level into chunks
     groups = {}
@@ -351,6 +429,8 @@ def main(tier, seed):
             ctx.count(kind, 1, [key])
             ctx.bump('len:%d' % len(h))
             fails = judge_run(F, h, run, kind)
+            if len(p) > 3:
+                fails += judge_tagged(p[3], F, h, run, kind)
             new_failure = False
             for sig, info in fails:
                 info = dict(info)
